@@ -723,7 +723,10 @@ func (sm *Subscriptions) WhenArgs(
 
 	// try to reuse an existing channel
 	for _, binding := range sm.whenArgs[handler] {
-		if compareArgs(binding.args, args) {
+		// only the same args and ctx
+		if compareArgs(binding.args, args) && compareArgs(args, binding.args) &&
+			binding.ctx == ctx {
+
 			return binding.ch
 		}
 	}
